@@ -1,7 +1,7 @@
 (* C03 - Injectors terminate and join all their goroutines on success. *)
 From Coq Require Import List Arith Bool.
 Import ListNotations.
-Require Import Sem2 Safe Live LiveInv GenU GenSound.
+Require Import Sem2 Safe Live LiveInv GenU GenSound Finite.
 
 (* Deadlock freedom: in every state reachable by a fault-free run (no provider error, no cancellation) of a
    well-synchronised, ranked program, as long as some thread has not finished, a step other than the caller's cancel
@@ -37,3 +37,11 @@ Proof.
   intros ls s F R. split; [apply (C03_no_deadlock _ _ ls s W F R) | apply (C03_returns_joined _ _ ls s W F R)].
 Qed.
 Print Assumptions C03_all_declarations.
+
+(* Termination: a fault-free execution of ANY program has at most `bound p` steps (one per wait, call, return, close,
+   advance and final return) - so no schedule runs forever; with C03_no_deadlock (a step exists while a thread runs) and
+   C03_returns_joined (when none exists everything has returned) every maximal fault-free execution is finite and ends
+   with the injector returned and all goroutines joined. *)
+Theorem C03_executions_finite : forall p ls s, forallb ffl ls = true -> run p (init p) ls = Some s -> length ls <= bound p.
+Proof. exact fault_free_runs_bounded. Qed.
+Print Assumptions C03_executions_finite.
